@@ -2,10 +2,12 @@ import Kaira.Verbs18
 import Kaira.Verbs16
 import Kaira.Verbs17
 import Kaira.VerbsMod
+import Kaira.VerbsFec
 open Kaira
 
 structure DState where
   tables : Verbs.Tables := []
+  codes : Verbs.CodeTable := []
 
 def natVerb (verb : String) (args : List String) : Option String :=
   match args.mapM String.toNat? with
@@ -26,8 +28,12 @@ def dispatch (st : DState) (line : String) : DState × String :=
     match Verbs.defTable (verb :: args) with
     | some (n, t) => ({ st with tables := (n, t) :: st.tables.filter (·.1 ≠ n) }, "ok")
     | none =>
+    match Verbs.defCode (verb :: args) with
+    | some (n, c) => ({ st with codes := (n, c) :: st.codes.filter (·.1 ≠ n) }, "ok")
+    | none =>
       let toks := verb :: args
       let r := firstSome [
+        fun _ => Verbs.cfec st.codes toks,
         fun _ => natVerb verb args,
         fun _ => Verbs.c16 toks,
         fun _ => Verbs.c17 toks,
